@@ -20,6 +20,7 @@ type coreProfile struct {
 	setmtu    int // % of ticks with a SetMtu call
 	reconf    int // % of ticks with NoDelay / WndSize calls (mid-life; not for window monitors)
 	keepMode  bool // the NoDelay calls leave the no-delay MODE alone (first argument -1): boundary B4
+	growWnd   bool // a stalled reader's endpoint enlarges its receive window mid-stall
 	stall     int // % of cases in which one reader pauses for a while
 	fec       int // % of deliveries fed as non-regular (FEC-recovered) packets
 	bigSend   bool
@@ -331,6 +332,11 @@ func runCoreHistory(s *coreSim, rng *vrng, p coreProfile) (info coreCaseInfo) {
 		for e := 0; e < 2 && !s.dead; e++ {
 			if e == stallEp && t >= stallFrom && t < stallTo {
 				s.stats["reader-stalled-ticks"]++
+				// the stalled application may enlarge its receive window (growth only: boundary B8)
+				if p.growWnd && t == (stallFrom+stallTo)/2 {
+					s.WndSize(e, 0, 2*int(s.k[e].rcv_wnd)+rng.intn(8))
+					s.stats["stall-window-grown"]++
+				}
 				continue
 			}
 			for r := 0; r < 4 && !s.dead; r++ {
